@@ -16,6 +16,32 @@ def project(impl):
     return proj
 
 
+def picked_up_at_start(ctx):
+    """'from every chain state the node may be (re)started in': which contracts the node engages at all is decided by the contract
+    manager's start-up scan and its clone-factory events — the real ContractManager over the fake node (C16's harness: contracts of
+    all roles, delisted ones, closes, re-purchases, restarts, refused calls) against Model/Manager.lean; a seller contract that is
+    not picked up is never fulfilled"""
+    exe = L.build_harness(ctx, "contractmanager")
+    if not exe:
+        return 0
+    rc, out = L.run_harness(ctx, exe, "TestVerifC16$", env={"VERIF_N": 300 if ctx.tier == "quick" else 3000, "VERIF_FLUSH": 1}, timeout=900)
+    if rc != 0:
+        if not L.crash_violation(ctx, "c16.impl.txt", out, "c08"):
+            ctx.tie_failures.append("contract-manager harness run failed (rc=%d): %s" % (rc, out[-300:]))
+        return 0
+    impl = ctx.out + "/c16.impl.txt"
+    rc, err = L.drv("model", "c16", impl, impl + ".model.txt")
+    if rc != 0:
+        ctx.tie_failures.append("driver model c16 failed: " + err[-200:])
+        return 0
+    for d in L.diff_cases(impl, impl + ".model.txt")[:1]:
+        L.violation(ctx, "c08:contract-not-picked-up-by-the-manager", "after %s the node watches %r, the model of the contract manager %r: a contract that runs on chain and is not watched is not fulfilled (one that is watched although it is not the node's is served for nobody)" % (
+            L.last_op_before(d["lines"], d["first"])[2:], d["impl"][:160], d["other"][:160]),
+            {"clause": "fulfilled exactly while running on chain, from every chain state the node may be (re)started in", "case": d["header"],
+             "ops": [l for l in d["lines"][:d["first"] + 1] if l.startswith("> ")], "how_to_replay": "bin/check C16 --replay <this file>"})
+    return len(L.parse_cases(impl))
+
+
 def run(ctx):
     ctx.trusted_base += [
         "Model/Seller.lean (hand-written from controller_seller.go and the start / stop / expiry of contract_seller_v2.go): terms held, whether the watcher runs, the error flag; the chain is a parameter of every handler",
@@ -95,6 +121,7 @@ def run(ctx):
             if l.startswith("> "):
                 ops[l.split()[1]] = ops.get(l.split()[1], 0) + 1
         engaged += any(re.search(r"=c\d@", l) for l in lines)
+    ctx.coverage["contract_manager_histories"] = picked_up_at_start(ctx)
     ctx.coverage.update({
         "evaluations": sum(ops.values()), "distinct_nontrivial": L.distinct_count(cases, lambda h, ls: any(re.search(r"=c\d@", l) for l in ls)),
         "rule": "1..2 contracts sold by the node, each found at start-up available or purchased (5..400 s ago, 300 / 600 s long) with a payload that is a valid pool URL encrypted for the seller, empty, hex that does not decrypt, not hex, or a non-URL; then seeded purchases (120..600 s), closes, destination updates (all payload kinds), node failures (the next eth_call refused) under a purchase / close / destination update / terms update, events without a handler (fundsClaimed), terms updates (length 120..600 s, speed 500..2000 GH/s; applied at once to an available contract, at the close of a running one), restarts and time advances of 1 s..310 s around the 10 s start delay, the 60 s cycle and the contract ends; 3..5 miners of 1000 GH/s. Non-trivial: a history in which a miner was directed to a contract; distinct by op list",
@@ -104,6 +131,13 @@ def run(ctx):
 
 
 def replay(ctx, path):
+    import json as _j
+    if _j.load(open(path)).get("signature", "").startswith("c08:contract-not-picked-up"):
+        import importlib.util
+        spec = importlib.util.spec_from_file_location("chk_C16", "%s/checks/C16.py" % L.VERIF)
+        mod = importlib.util.module_from_spec(spec)
+        spec.loader.exec_module(mod)
+        return mod.replay(ctx, path)
     import json, os
     rp = json.load(open(path))
     ops = [o[2:] if o.startswith("> ") else o for o in rp.get("ops", [])]
